@@ -255,6 +255,8 @@ inductive Pc where
   | rApp (e : Option Wid)       -- [lock] appended; `e` evicted
   | rEvict (e : Wid)            -- `evicted.close()` pending
   | rEnd
+  | rIntrL                      -- [lock] a non-Exception cut the return short inside the critical section
+  | rIntr                       -- a non-Exception cut `_PooledTransport.close()` short: the second close() is a no-op
   -- _reap_expired
   | reapRead (now : Int)
   | reapL (ws : List Wid)       -- [lock]
@@ -272,7 +274,13 @@ deriving Repr, DecidableEq
 /-- the thread holds the pool lock -/
 def Pc.inCS : Pc → Bool
   | .bPoll .. | .bDead .. | .bMiss .. | .bHave .. | .bNewL .. | .bFailL | .rDiscL .. | .rLock .. | .rShut ..
-  | .rShutC | .rKeep .. | .rApp .. | .reapL .. | .cL .. | .oL .. => true
+  | .rShutC | .rKeep .. | .rApp .. | .rIntrL | .reapL .. | .cL .. | .oL .. => true
+  | _ => false
+
+/-- inside `_PooledTransport.close()` / `_return_worker` (from its entry until the harness sees `connect()` return) -/
+def Pc.inReturn : Pc → Bool
+  | .rPoll .. | .rDisc .. | .rDiscL .. | .rDiscC .. | .rOk .. | .rLock .. | .rShut .. | .rShutC | .rKeep .. | .rApp ..
+  | .rEvict .. | .rEnd => true
   | _ => false
 
 /-- the worker a borrower thread holds (from the moment it leaves the idle dict / is spawned until it is put back or
@@ -301,6 +309,7 @@ inductive Label where
   | use (t : Tid) (op : UseOp) (after : Conn)
   | ret (t : Tid) (w : Wid) (ab : Bool) (sy : Bool)
   | done (t : Tid)
+  | intr (t : Tid)   -- a non-Exception (KeyboardInterrupt …) delivered to the thread between two events of its return path
   | closeCall (t : Tid)
   | closeDone (t : Tid)
   | obsCall (t : Tid)
@@ -352,6 +361,7 @@ def stepRel (c : Cfg) (s : St) (t : Tid) : Option St :=
   | .reapL (w :: ws) => some (setPc s t (.reapC (w :: ws)))
   | .cL ws => some (setPc s t (.cC ws))
   | .oL n => some (setPc s t (.oRet n))
+  | .rIntrL => some (setPc s t .rIntr)
   | _ => none
 
 def stepPoll (s : St) (t : Tid) (w : Wid) (r : Bool) : Option St :=
@@ -456,7 +466,13 @@ def step (c : Cfg) (s : St) : Label → Option St
   | .done t =>
     match s.pc t with
     | .rEnd => some (setPc s t .idle)
+    | .rIntr => some (setPc s t .idle)
     | _ => none
+  | .intr t =>
+    -- the exception unwinds `_return_worker` / `close()` (a `with self._lock:` it passes releases the lock: the `rel` that
+    -- follows); whatever the thread still held is neither put back nor closed; `_returned` is already set, so the second
+    -- `close()` of `connect()`'s `finally` does nothing
+    if (s.pc t).inReturn then some (setPc s t (if (s.pc t).inCS then .rIntrL else .rIntr)) else none
   | .closeCall t =>
     match s.pc t with
     | .idle => some (setPc s t .cEnter)
